@@ -24,6 +24,7 @@ from .core import Decider, HarnessError, Violation, canon, derive_seed, jsonable
 CHECKS = {
     "C07": "sr_world",
     "C08": "coherence",
+    "C12": "sampler_matrix",
 }
 
 KNOWN_FINDINGS_FILE = os.path.join(env.VERIF_ROOT, "known_findings.json")
@@ -278,6 +279,21 @@ def replay_main(pid, path, quiet=False):
         print(json.dumps(viol.to_json(), indent=1)[:3000])
     print(f"VIOLATION property={pid} replay={path}")
     return 1
+
+
+def digest_main(pid, path):
+    """Execute one (cfg, decisions) pair and print its digest (used for the
+    fresh-interpreter / other-hash-seed reproducibility probes)."""
+    import warnings
+
+    warnings.filterwarnings("ignore", category=RuntimeWarning)
+    env.init_jax()
+    mod = load_check(pid)
+    with open(path) as f:
+        doc = json.load(f)
+    rec, viol, _ = run_one(mod, doc["cfg"], doc["decisions"], load_known_findings(pid))
+    print(f"DIGEST {rec['digest']} violation={viol.klass if viol else None}")
+    return 0
 
 
 def verify_replay(pid, path):
